@@ -53,6 +53,8 @@ type vlab struct {
 
 type vlabConf struct {
 	MaxUDPRespSize uint16
+	// ZeroMaxUDP makes a zero MaxUDPRespSize the configured value (not "unset").
+	ZeroMaxUDP bool
 	NoDNSCrypt     bool
 }
 
@@ -72,7 +74,7 @@ func vlabStart(t testing.TB, h dnsserver.Handler, c vlabConf) (l *vlab) {
 	ctx := context.Background()
 
 	maxUDP := c.MaxUDPRespSize
-	if maxUDP == 0 {
+	if maxUDP == 0 && !c.ZeroMaxUDP {
 		maxUDP = dns.MaxMsgSize
 	}
 	var s *dnsserver.ServerDNS
